@@ -132,6 +132,7 @@ type rbOcc struct {
 	blk   int      // block nesting depth of the occurrence
 	ctx   []string // names declared by the statement in whose initialiser / bounds this occurrence sits
 	ctxKind int    // 1 local statement initialiser, 2 numeric-for bounds, 3 generic-for expression list, 4 right-hand side of an assignment to plain names
+	ctxSafe bool   // (ctxKind 1) the occurrence sits in the initialiser expression of the very name it spells, and that expression as a whole is a name, a call or a function: the shapes the position-based resolver recognises
 }
 
 type rbScope struct {
@@ -146,6 +147,7 @@ type rbT struct {
 	colonRecv []string // receiver names of colon-method definitions (function t:m ...)
 	ctx     []string
 	ctxKind int
+	ctxSafeName string
 	decls []rbDecl
 	occs  []rbOcc
 	stack []*rbScope
@@ -195,7 +197,7 @@ func (r *rbT) use(name string, loc lexer.Location, kind int) {
 			r.decls[d].writes++
 		}
 	}
-	r.occs = append(r.occs, rbOcc{name: name, loc: loc, kind: kind, decl: d, file: r.file, depth: r.depth, blk: len(r.stack), ctx: r.ctx, ctxKind: r.ctxKind})
+	r.occs = append(r.occs, rbOcc{name: name, loc: loc, kind: kind, decl: d, file: r.file, depth: r.depth, blk: len(r.stack), ctx: r.ctx, ctxKind: r.ctxKind, ctxSafe: r.ctxSafeName != "" && r.ctxSafeName == name})
 }
 
 func (o *rbOcc) inCtxOf(name string) bool {
@@ -253,9 +255,25 @@ func (r *rbT) stat(s ast.Stat) {
 	switch st := s.(type) {
 	case *ast.LocalVarDeclStat:
 		r.ctx, r.ctxKind = st.NameList, 1
-		for _, e := range st.ExpList {
+		for i, e := range st.ExpList {
+			r.ctxSafeName = ""
+			if i < len(st.NameList) {
+				once := 0
+				for _, n := range st.NameList {
+					if n == st.NameList[i] {
+						once++
+					}
+				}
+				switch e.(type) {
+				case *ast.NameExp, *ast.FuncCallExp, *ast.FuncDefExp:
+					if once == 1 {
+						r.ctxSafeName = st.NameList[i]
+					}
+				}
+			}
 			r.exp(e)
 		}
+		r.ctxSafeName = ""
 		r.ctx, r.ctxKind = nil, 0
 		for i, n := range st.NameList {
 			id := r.declare(n, st.VarLocList[i], rbLocal)
@@ -462,6 +480,10 @@ var vpTemplates = []string{
 	// a numeric for whose control variable reuses a name that its own bounds read (the only read of that name)
 	/* 44 */ "local \x01 = 1\nfor \x02 = \x03, 5 do\n g = \x02\nend\n",
 	/* 45 */ "for \x01 = 1, \x02, \x03 do\n g = \x01\nend\n",
+	// initialisers that span several lines (call / function / name), the re-declared name used on a
+	// continuation line at a smaller column than the initialiser started at
+	/* 46 */ "local \x01 = 1\nlocal function h(\x02)\n      local \x03 = f(\x01,\n  \x02)\n local \x04 = function(k)\n  return \x02 and \x03(k)\n end\n return \x03, \x04\nend\n",
+	/* 47 */ "local \x01, \x02 = 1, 2\n     local \x03 = t.f(1,\n\x01, function()\n return \x02\nend)\ng = \x03 + \x01\n",
 }
 
 // vpInstantiate fills the holes of template t with symbolic names; tag prefixes the variable names.
